@@ -1076,3 +1076,114 @@ Print Assumptions run_loop_tr_erase.
 Theorem requests_in_order : requests_in_order_stmt.
 Proof. exact requests_in_order_proof. Qed.
 Print Assumptions requests_in_order.
+
+(* ------------------------------------------------------------------------------------------ *)
+(* Part F: an instance: two KeepConn requests with different ids and environments in two segments; the client releases
+   the second only after it has counted the EndRequest of the first.  The first handler returns WITHOUT reading its
+   Stdin: the unread Stdin records and a record of unknown type are the leftover in front of the second request. *)
+(* ------------------------------------------------------------------------------------------ *)
+Definition ex4_pay (ps : list (bytes * bytes)) : bytes := match nv_write_all ps with Some e => e | None => [] end.
+
+Definition ex4_c (id : N) (ps : list (bytes * bytes)) (body : bytes) : creq :=
+  mkCReq (mkPreamble [] id ROLE_Responder FLAG_KeepConn [] [mkPiece [] (ex4_pay ps) []] [] [])
+         [ mkRcd RT_Stdin id body [0; 0; 0]; mkRcd 99 0 [1; 2] []; mkRcd RT_Stdin id [] [] ].
+
+Definition ex4_ps1 : list (bytes * bytes) := [([65; 66], [7; 8])].
+Definition ex4_ps2 : list (bytes * bytes) := [([67], [9]); ([68; 69], [])].
+Definition ex4_c1 : creq := ex4_c 1 ex4_ps1 [97; 98; 99].
+Definition ex4_c2 : creq := ex4_c 2 ex4_ps2 [100; 101].
+Definition ex4_cs : list (N * N * creq) := [ (0, 0, ex4_c1); (1, 0, ex4_c2) ].
+Definition ex4_pairss : list (list (bytes * bytes)) := [ex4_ps1; ex4_ps2].
+Definition ex4_w : world := mkW [] [] (enc_client ex4_cs) [] 0 1 0 false false [].
+(* the first handler returns at once; the second reads its Stdin to the end *)
+Definition ex4_scripts : list (list N) := [[]; [2]].
+
+Ltac ex4_dec :=
+  first [ apply bytes_okb_ok; vm_compute; reflexivity
+        | vm_compute; reflexivity
+        | vm_compute; discriminate ].
+
+Lemma ex4_creq_ok id ps body :
+  (0 <? id) && (id <? 65536) = true -> (0 <? len (ex4_pay ps)) && (len (ex4_pay ps) <? 65536) = true ->
+  bytes_okb (ex4_pay ps) = true -> forallb rcd_okb (c_srs (ex4_c id ps body)) = true ->
+  ended_rcds ROLE_Responder id (Some RT_Stdin) (c_srs (ex4_c id ps body)) = true ->
+  creq_ok (ex4_c id ps body).
+Proof.
+  intros Hid Hpl Hpb Hrs Hend.
+  apply andb_true_iff in Hid. destruct Hid as [I1 I2]. apply N.ltb_lt in I1. apply N.ltb_lt in I2.
+  apply andb_true_iff in Hpl. destruct Hpl as [L1 L2]. apply N.ltb_lt in L1. apply N.ltb_lt in L2.
+  unfold creq_ok. cbn [ex4_c c_pre w_idle w_pieces w_endjunk w_role w_id].
+  split.
+  { unfold preamble_ok. cbn [w_idle w_id w_role w_flags w_beginpad w_pieces w_endjunk w_endpad].
+    split; [constructor|]. split; [split; assumption|]. split; [reflexivity|]. split; [vm_compute; reflexivity|].
+    split; [vm_compute; reflexivity|]. split; [constructor|]. split.
+    { constructor; [|constructor]. unfold piece_ok. cbn [pjunk pbody ppad]. split; [constructor|]. split; [split; assumption|].
+      split; [vm_compute; reflexivity|]. split; [apply bytes_okb_ok; exact Hpb|constructor]. }
+    split; [constructor|]. split; [vm_compute; reflexivity|constructor]. }
+  split; [constructor|]. split; [constructor; [constructor|constructor]|]. split; [constructor|].
+  split; [apply rcd_okb_ok; exact Hrs|]. split.
+  { cbn [c_srs]. repeat (constructor; [split; cbn [rt]; discriminate|]). constructor. }
+  change (role_input_streams ROLE_Responder) with [RT_Stdin]. constructor; [exact Hend|constructor].
+Qed.
+
+Lemma ex4_creq_fits id ps body : Forall pair_ok ps -> nv_write_all ps <> None ->
+  Forall (pair_fits (aligned_bufsize 64)) ps -> creq_fits 64 (ex4_c id ps body) ps.
+Proof.
+  intros H1 H2 H3. unfold creq_fits. split; [exact H1|]. split.
+  { cbn [ex4_c c_pre preamble_payload w_pieces flat_map pbody]. rewrite app_nil_r. unfold ex4_pay.
+    destruct (nv_write_all ps); [reflexivity|contradiction]. }
+  split; [exact H3|]. split.
+  { unfold preamble_fits. cbn [ex4_c c_pre w_idle w_pieces w_endjunk pjunk]. split; [constructor|]. split; [|constructor].
+    constructor; [constructor|constructor]. }
+  cbn [ex4_c c_srs]. repeat (constructor; [intros H; vm_compute in H; discriminate H|]). constructor.
+Qed.
+
+(* the hypotheses of the theorem hold for it *)
+Example ex4_hyps :
+  64 < SIZE_LIMIT - 8 /\ scripts_ok true ex4_scripts /\ segs ex4_w = enc_client ex4_cs /\ client_segs 0 0 ex4_cs /\
+  wlog ex4_w = [] /\ no_fault (wscript ex4_w) /\ length ex4_pairss = length ex4_cs /\
+  (forall i c ps, nth_error (map snd ex4_cs) i = Some c -> nth_error ex4_pairss i = Some ps -> creq_fits 64 c ps) /\
+  len (flat (segs ex4_w)) < SIZE_LIMIT.
+Proof.
+  split; [vm_compute; reflexivity|]. split.
+  { constructor; [|constructor; [|constructor]]; intros role; [apply SO_nil|apply SO_read_all, SO_nil]. }
+  split; [reflexivity|]. split.
+  { cbn [client_segs ex4_cs]. split; [reflexivity|]. split; [lia|].
+    split; [apply ex4_creq_ok; vm_compute; reflexivity|].
+    split; [reflexivity|]. split; [vm_compute; discriminate|]. split; [apply ex4_creq_ok; vm_compute; reflexivity|exact I]. }
+  split; [reflexivity|]. split; [constructor|]. split; [reflexivity|]. split; [|vm_compute; reflexivity].
+  intros [|[|i]] c ps H1 H2; cbn [ex4_cs ex4_pairss map snd nth_error] in H1, H2.
+  - injection H1 as <-. injection H2 as <-. apply ex4_creq_fits.
+    + constructor; [split; ex4_dec|constructor].
+    + vm_compute. discriminate.
+    + constructor; [ex4_dec|constructor].
+  - injection H1 as <-. injection H2 as <-. apply ex4_creq_fits.
+    + constructor; [split; ex4_dec|]. constructor; [split; ex4_dec|constructor].
+    + vm_compute. discriminate.
+    + constructor; [ex4_dec|]. constructor; [ex4_dec|constructor].
+  - destruct i; discriminate H1.
+Qed.
+
+(* the run: the first handler is started with request 1 and its environment and returns without reading; the second
+   handler is started with request 2 and its environment, although 3 unread records of request 1 stood before it *)
+Example ex4_trace :
+  snd (run_loop_tr (fun b => b) 10 (nb ex4_w + 4) (new_parser 64) ex4_scripts 0 ex4_w []) =
+    [ mkReq 1 ROLE_Responder FLAG_KeepConn ex4_ps1; mkReq 2 ROLE_Responder FLAG_KeepConn ex4_ps2 ] /\
+  [ mkReq 1 ROLE_Responder FLAG_KeepConn ex4_ps1; mkReq 2 ROLE_Responder FLAG_KeepConn ex4_ps2 ] =
+    map (fun cp => sent_request (fun b => b) (fst cp) (snd cp)) (combine (map snd ex4_cs) ex4_pairss) /\
+  In [100; 101] (events (snd (fst (run_loop_tr (fun b => b) 10 (nb ex4_w + 4) (new_parser 64) ex4_scripts 0 ex4_w [])))) /\
+  fst (fst (run_loop_tr (fun b => b) 10 (nb ex4_w + 4) (new_parser 64) ex4_scripts 0 ex4_w [])) = ORet.
+Proof. vm_compute. repeat split; auto 12. Qed.
+
+(* ... and by the theorem, for every normalisation function and every max_conns: a prefix of the two sent requests *)
+Example ex4_in_order norm maxc :
+  exists m, snd (run_loop_tr norm maxc (nb ex4_w + 4) (new_parser 64) ex4_scripts 0 ex4_w []) =
+            firstn m (map (fun cp => sent_request norm (fst cp) (snd cp)) (combine (map snd ex4_cs) ex4_pairss)).
+Proof.
+  destruct ex4_hyps as (H1 & H2 & H3 & H4 & H5 & H6 & H7 & H8 & H9).
+  exact (requests_in_order norm maxc ex4_scripts 64 ex4_cs ex4_pairss ex4_w H1 H2 H3 H4 H5 H6 H7 H8 H9).
+Qed.
+
+Print Assumptions ex4_hyps.
+Print Assumptions ex4_trace.
+Print Assumptions ex4_in_order.
